@@ -137,12 +137,12 @@ def run(ctx, obl):
             doc[k] = sentinel_json(types.get(tgt, "int"), j)
         shoots = [m["decl"]["name"] for m in s["members"] if m["k"] == "e" and m.get("shoot")]
         # multi-type run (30%): companion types first (a generic one embedding a shoot type, with restrictions on fields named like T's)
-        cdecls, cnames = newgen.companion(ctx.rng, s, cid) if ctx.rng.random() < 0.3 else ([], [])
-        args = ["new"] + (["-getset"] if getset else []) + ["-json", "-tagcase=" + tagcases[i], "-type=" + ",".join(cnames + shoots + [s["name"]])]
+        cdecls, cnames, cafter = newgen.companion(ctx.rng, s, cid, share_shoot=getset) if ctx.rng.random() < 0.3 else ([], [], [])
+        args = ["new"] + (["-getset"] if getset else []) + ["-json", "-tagcase=" + tagcases[i], "-type=" + ",".join(cnames + shoots + cafter + [s["name"]])]
         inst = newgen.instantiate(s)
         oracle = ('package cs\n\nimport "verifcases/vo"\n\nfunc VerifObserve(emit func(string, string)) {\n'
                   '\tvo.ObserveJSON(emit, func() any { return new(%s) }, %s)\n}\n' % (inst, json.dumps(json.dumps(doc))))
-        pc = {"id": cid, "files": {"t.go": newgen.render_file("cs", cdecls + [s])}, "runs": [{"args": args}], "oracle": {".": oracle},
+        pc = {"id": cid, "files": {"t.go": newgen.render_file("cs", cdecls + [s])}, "runs": [{"args": args}] * (2 if ctx.rng.random() < 0.12 else 1), "oracle": {".": oracle},
               "spec": s, "sexp": json_sexp(cid, s, facts[i], getset, tagcases[i], keys), "cmd": "shoot " + " ".join(args),
               "key": dump([getset, tagcases[i], typedoc_sexp(s.get("typedoc")), members_sexp_json(s), sorted(facts[i])]), "getset": getset}
         b.add(pc)
@@ -152,8 +152,10 @@ def run(ctx, obl):
     for c in cases:
         r = out[c["id"]]
         im = dict(r["obs"])
-        im["exit"] = str(r["runs"][0]["rc"])
+        im["exit"] = str(max(abs(x["rc"]) for x in r["runs"]))
         im["compile"] = "ok" if r["compile"] == "ok" else "error"
+        if r["compile"] != "ok":
+            c.setdefault("detail", {})["compile"] = r["compile"]
         impl[c["id"]] = im
     model = core.model_run(ctx, [c["sexp"] for c in cases])
     for c in cases:
